@@ -18,8 +18,8 @@ PROPS = {
         "assumptions": ["object sizes reach the counters through NewCount32 (see DESIGN §9 F8/F7)"],
     },
     "C12": {
-        "level_text": "Exact integer model of FormatNumber (float64 conversion, division, %.Nf) in Lean; theorems on prefix choice, exactness below the first prefix, digit counts; every observed rendering judged against the half-unit/prefix/length/monotonicity specification.",
-        "level_note": "Trusted: Lean kernel; the float model (validated string-exactly against Go on every run); prefix tables regenerated from counts/human.go.",
+        "level_text": "Exact integer model of FormatNumber (float64 conversion, division, %.Nf) in Lean, with its rounding functions PROVED correct (round-half-even within 1/2 and monotone; the 53-bit quotient rounding has relative error <= 2^-53, is monotone and exact on 53-bit dyadics). Theorems for EVERY n < 2^64 and both regenerated prefix tables: prefix = largest multiplier not exceeding n; exact below the first prefix (<= 4 characters); with a prefix the numeral m/10^d has 100 <= m (three significant digits) and the rendered string has 3..5 characters; the rendered magnitude is monotonically non-decreasing across all prefix and precision changes; for every n < 2^53 the numeral is within half a unit of the last displayed digit (for n >= 2^53 it is not: recorded finding F11 with a kernel-checked witness). Every observed rendering of the real code is also judged against the same specification.",
+        "level_note": "Trusted: Lean kernel; that the integer float model is Go's float64 arithmetic and fmt's %.Nf (tied string-exactly against Go on every run, 60 000 values quick; not derived from the Go runtime); prefix tables regenerated from counts/human.go and re-checked (`TableOK` by kernel evaluation). Mathlib tactics are used in the proof modules Proofs/Float*, Proofs/HumanFloat* only (axioms: propext, Classical.choice, Quot.sound).",
         "technique": "Lean 4 proof + differential correspondence",
         "modules": ["GitSizer.Props.C12"],
         "engines": [
